@@ -25,9 +25,19 @@ impl CheckpointStorage {
             .as_ref()
             .map(|t| t.operation.operation_name().to_string());
 
+        // `created_at` has one-second resolution: a sequence number keeps the creation order
+        // total, so retention never purges a newer checkpoint before an older one.
+        let seq = Self::list_with_seq(blob)
+            .await?
+            .iter()
+            .map(|(seq, _)| *seq)
+            .max()
+            .map_or(0, |m| m + 1);
+
         let mut options = PutOptions::new()
             .with_content_type(CHECKPOINT_CONTENT_TYPE)
             .with_tag(CHECKPOINT_TAG)
+            .with_meta("checkpoint_seq", seq.to_string())
             .with_meta("checkpoint_id", &state.id)
             .with_meta("checkpoint_name", &state.name)
             .with_meta("created_at", state.created_at.to_string())
@@ -62,6 +72,15 @@ impl CheckpointStorage {
 
     /// List all checkpoints sorted by creation time (most recent first).
     pub async fn list(blob: &BlobStore) -> Result<Vec<CheckpointInfo>> {
+        Ok(Self::list_with_seq(blob)
+            .await?
+            .into_iter()
+            .map(|(_, info)| info)
+            .collect())
+    }
+
+    /// Checkpoints with their creation sequence number, most recent first.
+    async fn list_with_seq(blob: &BlobStore) -> Result<Vec<(u64, CheckpointInfo)>> {
         let artifact_ids = blob
             .by_tag(CHECKPOINT_TAG)
             .await
@@ -90,11 +109,16 @@ impl CheckpointStorage {
                     size: meta.size,
                     trigger: meta.custom.get("trigger").cloned(),
                 };
-                checkpoints.push(info);
+                let seq = meta
+                    .custom
+                    .get("checkpoint_seq")
+                    .and_then(|s| s.parse().ok())
+                    .unwrap_or(0);
+                checkpoints.push((seq, info));
             }
         }
 
-        checkpoints.sort_by(|a, b| b.created_at.cmp(&a.created_at));
+        checkpoints.sort_by(|a, b| (b.1.created_at, b.0).cmp(&(a.1.created_at, a.0)));
 
         Ok(checkpoints)
     }
